@@ -43,10 +43,16 @@ var schemeSets = [][]string{{}, {"https", "http"}, {"http"}, {"https"}}
 var hostPool = []string{"http://h1:80", "https://h1:443", "http://h2:80", "https://h2:443", "https://h3:443"}
 var nodePool = []string{"n1", "n2", "n3"}
 
-func svcJSON(schemes []string) []byte {
-	b, _ := json.Marshal(map[string]interface{}{"serviceName": svc, "clusterName": cluster, "prioritizedSchemes": schemes})
+func svcJSON(schemes []string) []byte { return svcJSONFor(schemes, cluster) }
+
+func svcJSONFor(schemes []string, cl string) []byte {
+	b, _ := json.Marshal(map[string]interface{}{"serviceName": svc, "clusterName": cl, "prioritizedSchemes": schemes})
 	return b
 }
+
+// cluster2: the service definition can move to a second cluster (a resolver then loads that cluster's URIs on a
+// client whose service entry is already loaded)
+const cluster2 = "Clu2"
 
 type announce struct {
 	node  string
@@ -127,11 +133,18 @@ func pinRandomness(c *harness.Ctx) {
 	}
 	d2.VerifSetRngSource(src)
 	// select's poll order and the order of simultaneous fake timers (runtime seam, see overlayfiles/runtime)
-	runtime.VerifSeed(uint64(c.Choose(1<<30, "rtseed")))
+	// ... and whether a goroutine that wakes another one is preempted right after (never, or one time in 2/4/16)
+	runtime.VerifSeed(uint64(c.Choose(1<<30, "rtseed")), []uint32{0, 4, 2, 16}[c.Choose(4, "preempt")])
 }
 
 func bubble(c *harness.Ctx) {
 	pinRandomness(c)
+	pre0 := runtime.VerifPreemptions
+	defer func() {
+		if runtime.VerifPreemptions > pre0 {
+			c.Probe("waker-preempted-after-wake-up")
+		}
+	}()
 	epoch := time.Now()
 	now := func() time.Duration { return time.Since(epoch) }
 	z := fakezk.New()
@@ -149,14 +162,17 @@ func bubble(c *harness.Ctx) {
 	z.Set("/d2/uris", nil)
 	z.Set("/d2/services/"+svc, svcJSON(schemes))
 	z.Set("/d2/uris/"+cluster, []byte{})
+	z.Set("/d2/uris/"+cluster2, []byte{})
+	curCluster, curSchemes := cluster, schemes
 	everAnnounced := map[string]bool{}
 	everSchemes := map[string]bool{}
 	noPrio := len(schemes) == 0
 	for _, s := range schemes {
 		everSchemes[s] = true
 	}
+	annCluster := cluster
 	apply := func(a announce) {
-		p := "/d2/uris/" + cluster + "/" + a.node
+		p := "/d2/uris/" + annCluster + "/" + a.node
 		if a.kind == 1 {
 			z.Delete(p)
 			return
@@ -207,7 +223,7 @@ func bubble(c *harness.Ctx) {
 	nstim := 3 + c.Choose(8, "nstimuli")
 	var desc []string
 	for i := 0; i < nstim; i++ {
-		switch c.C.Weighted("stimulus", 4, 5, 2, 1, 1, 1, 1, 2) {
+		switch c.C.Weighted("stimulus", 4, 5, 2, 1, 1, 1, 1, 2, 1) {
 		case 0:
 			n := 1 + c.Choose(3, "nresolvers")
 			desc = append(desc, fmt.Sprintf("resolve x%d", n))
@@ -217,8 +233,13 @@ func bubble(c *harness.Ctx) {
 			startResolvers(n)
 		case 1:
 			a := genAnnounce(c)
-			desc = append(desc, fmt.Sprintf("announce %s kind=%d %v", a.node, a.kind, a.hosts))
+			annCluster = cluster
+			if c.Choose(4, "ann-cluster") == 1 {
+				annCluster = cluster2
+			}
+			desc = append(desc, fmt.Sprintf("announce %s/%s kind=%d %v", annCluster, a.node, a.kind, a.hosts))
 			apply(a)
+			annCluster = cluster
 		case 2:
 			d := time.Duration(1+c.Choose(12, "advance")) * time.Second
 			desc = append(desc, fmt.Sprintf("advance %v", d))
@@ -232,7 +253,17 @@ func bubble(c *harness.Ctx) {
 			for _, x := range s {
 				everSchemes[x] = true
 			}
-			z.Set("/d2/services/"+svc, svcJSON(s))
+			curSchemes = s
+			z.Set("/d2/services/"+svc, svcJSONFor(s, curCluster))
+		case 8:
+			if curCluster == cluster {
+				curCluster = cluster2
+			} else {
+				curCluster = cluster
+			}
+			desc = append(desc, "service moves to cluster "+curCluster)
+			z.Set("/d2/services/"+svc, svcJSONFor(curSchemes, curCluster))
+			c.Probe("service-moved-to-other-cluster")
 		case 4:
 			desc = append(desc, "drop connections")
 			z.DropConnections()
@@ -304,7 +335,7 @@ func bubble(c *harness.Ctx) {
 	}
 	// C18's use in D2: resolvers racing on a fresh client share one initial load
 	if connFaults == 0 {
-		for _, p := range []string{"/d2/services/" + svc, "/d2/uris/" + cluster} {
+		for _, p := range []string{"/d2/services/" + svc, "/d2/uris/" + cluster, "/d2/uris/" + cluster2} {
 			if n := z.Count(3, p); n > 1 {
 				c.Fail("C18", "double-initial-load", "double-initial-load", "%d exists() requests for %s: racing resolvers ran the initial load more than once (%s)", n, p, workload)
 				return
@@ -313,7 +344,7 @@ func bubble(c *harness.Ctx) {
 	}
 	// convergence after faults stopped is measured, not asserted (C19 states a fold, not convergence)
 	want := map[string]bool{}
-	for _, data := range z.Children("/d2/uris/" + cluster) {
+	for _, data := range z.Children("/d2/uris/" + curCluster) {
 		var u struct{ Weights map[string]float64 }
 		if json.Unmarshal(data, &u) == nil {
 			for h := range u.Weights {
@@ -322,8 +353,37 @@ func bubble(c *harness.Ctx) {
 		}
 	}
 	if len(recs) > 0 {
-		u, err := cl.ResolveHostnameAndContextForQuery(svc, &url.URL{})
+		// never call into the client from the bubble's main goroutine: a resolver that blocks for ever would keep
+		// the bubble alive (the ZooKeeper client's ping timer never lets it fall idle) and hang the worker
+		last := &resolveRec{start: now()}
+		go func() {
+			u, err := cl.ResolveHostnameAndContextForQuery(svc, &url.URL{})
+			last.end = now()
+			if err != nil {
+				last.err = err.Error()
+			} else if u != nil {
+				last.host = u.String()
+			}
+			last.done = true
+		}()
+		time.Sleep(effTimeout + 5*time.Second)
+		synctest.Wait()
+		if !last.done {
+			if connFaults == 0 {
+				c.Fail("C19", "resolver-stuck", "resolver-stuck", "a resolver started after all stimuli (at %v) had not returned %v of virtual time later, initial timeout is %v (no connection fault in this run) (%s)", last.start, now()-last.start, effTimeout, workload)
+				return
+			}
+			c.Probe("resolver-stuck-after-connection-fault")
+		}
+		var u *url.URL
+		var err error
+		if last.host != "" {
+			u, _ = url.Parse(last.host)
+		} else {
+			err = fmt.Errorf("%s", last.err)
+		}
 		switch {
+		case !last.done:
 		case err == nil && u != nil && want[u.String()]:
 			c.Probe("converged-host-is-current")
 		case err == nil && u != nil:
